@@ -36,6 +36,9 @@ CHECKS = {
  "C06": ("exploration", "exhaustive small-scope input enumeration (all byte strings to a length, mutation closure of a generated valid corpus, bounded string alphabets for the validators) against an independent reference codec",
   "Every byte string of length <=3 and reduced-alphabet strings to length 4 (quick) / 5 (thorough) under v3.1, v3.1.1 and v5; allocation measured for every packet type with declared lengths up to 268435455 and 0..8 bytes supplied; a generated corpus of well-formed values of all 15 packet types x versions x every property is round-tripped gmqtt<->refmqtt in both directions (field equality, TotalBytes, Message.TotalBytes); every truncation, single-byte substitution, deletion and insertion of each corpus packet is decoded (no panic, bounded consumption, accepted => re-encodes to an equal packet); validators compared on all strings <=5 over a 12-byte alphabet.",
   "Written by a sub-agent to the C06 design, triaged by hand. Behaviours MQTT forbids but the property statement does not mention (5+ byte remaining length, reserved ack flags, EOF inside the fixed header read as length 0, will-only properties in CONNECT) are counted in the evidence (beyond_statement:*) and not reported. Trusted: refmqtt reference codec.", "DESIGN.md 8/C06"),
+ "C08": ("model_checking", "exhaustive enumeration of will settings x connection endings x follow-up sequences with a virtual clock on the real in-process broker vs a reference will machine",
+  "Every will setting (QoS, retain, delay, properties, version, session expiry) x 9 ways a connection can end x every sequence of <=2 (quick) / <=3 (thorough) follow-ups (clock advances around the delay and the sweeper tick, reconnect clean 0/1) on a fresh broker; after every step the number of will copies received by an independent Retain-As-Published subscriber and their content (topic, payload, QoS, RETAIN, properties) must equal the reference will machine.",
+  "Default schedule; virtual time moves only between quiescent points. A reconnect within 1s of the due instant is not judged. Stop() as an ending is left to C15. Trusted: vsched clock/memconn deadlines, refmqtt.", "DESIGN.md 8/C08"),
 }
 NA_DEFAULT = "check not built yet in this session (planned design in DESIGN.md section 8)"
 
